@@ -7,27 +7,6 @@ COMMON_TRUST = [
 
 PROPS = {}
 
-PROPS["C13"] = dict(
-    level="proof",
-    units=["gas"],
-    level_text="Every method of the real gas meter (crates/interpreter/src/gas.rs, extracted verbatim on each run) is "
-               "verified by Verus against a contract written from the property: wf (remaining<=limit) is preserved, "
-               "record_cost succeeds iff cost<=remaining and otherwise leaves the meter bit-identical, spent+remaining==limit, "
-               "refund cap spent/5 (London) or spent/2. A sequence lemma (charge_all + model_run) lifts it to every finite "
-               "sequence of charges. Unbounded in all u64/i64 arguments.",
-    level_note="Trusted: Verus/z3; u64::overflowing_sub's assumed contract; erase_cost/record_refund preconditions "
-               "(returned gas was charged before; refund counter does not overflow i64) are call-site facts checked in the "
-               "units that call them, not here; set_final_refund assumes the refund counter is non-negative at the end of "
-               "a transaction (EIP-3529 protocol invariant).",
-    trusted=COMMON_TRUST,
-    assumptions=[
-        "set_final_refund / spent_sub_refunded: refund counter >= 0 at transaction end (protocol invariant, not proved here)",
-        "erase_cost: remaining + returned <= limit (proved at call sites in units that call it; trusted where the call site is outside a unit)",
-        "record_refund: no i64 overflow of the refund counter",
-        "machine arithmetic is NOT treated as mathematical: every + - on u64/i64 is an overflow obligation",
-    ],
-)
-
 NOT_APPLICABLE = {
     "C01": "whole-transaction equivalence with the execution specification: needs the entire spec as oracle and an invariant of the unbounded interpreter loop through dyn handler tables; no function-level contract can state it. Decidable fragments are claimed as C02-C05, C09-C14, C32, C34.",
     "C24": "agreement of alternative cryptographic back ends: both sides are foreign code (C FFI / external crates) selected by mutually exclusive cargo features; no repository function carries a contract relating them and neither verifier executes FFI.",
@@ -35,3 +14,17 @@ NOT_APPLICABLE = {
     "C29": "trace property over calls on a dyn Inspector made from closures sharing Rc<RefCell<Vec>> stacks across the frame loop; needs ghost call history on an external trait object, outside Verus (Rc<RefCell>, dyn Fn) and Kani (unbounded loop).",
     "C30": "the notification logic is an anonymous closure in inspector_handle_register inspecting journal.last().last(); same obstacle as C29. The journal entry it reads is under contract in C06/C08.",
 }
+
+
+def _load():
+    import importlib.util, os
+    d = os.path.join(os.path.dirname(os.path.dirname(os.path.abspath(__file__))), "props")
+    for fn in sorted(os.listdir(d)):
+        if fn.endswith(".py") and fn[0] == "C":
+            spec = importlib.util.spec_from_file_location("verif_prop_" + fn[:-3], os.path.join(d, fn))
+            m = importlib.util.module_from_spec(spec)
+            spec.loader.exec_module(m)
+            PROPS[fn[:-3]] = m.PROP
+
+
+_load()
